@@ -204,8 +204,12 @@ class SymmetryAnalyzer(object):
         Returns:
             bool: is the object chiral.
         """
-        operations = self.get_symmetry_operations()
-        rotations = operations["rotations"]
+        # The operations of the detected space group are used instead of the
+        # operations reported for the input cell: a supercell whose lattice is
+        # not invariant under all point operations retains only a subgroup of
+        # them, which may contain no improper operation at all.
+        hall_number = self.get_hall_number()
+        rotations = spglib.get_symmetry_from_database(hall_number)["rotations"]
         chiral = True
         for rotation in rotations:
             determinant = np.linalg.det(rotation)
